@@ -19,7 +19,7 @@
      - the formatter clause for the HTML and XML renderer models under valid /\ S2 /\ S3;
      - the cell arithmetic of the parser's table builder (try_opening_header / try_opening_row). *)
 From Coq Require Import List NArith Bool Arith.
-From V Require Import Base.Bytes Base.Res Model.Ast Model.Html Model.Xml Gen.Nodes Gen.TableRows
+From V Require Import Base.Bytes Base.Res Model.Ast Model.Html Model.Xml Model.AddChild Gen.Nodes Gen.TableRows Gen.AddChild
   Spec.Shape Spec.HtmlSpec Spec.XmlLex Spec.Valid Proofs.HtmlNest Proofs.ValidProofs.
 Import ListNotations.
 
@@ -167,6 +167,42 @@ Theorem C04_built_table_ok : forall aligns hk body,
 Proof. exact built_table_ok. Qed.
 Print Assumptions C04_built_table_ok.
 
+(* ---- Parser::add_child, the loop that closes ancestors until one may contain the new block
+   (body tied by translator item add_child; call sites audited below) *)
+Theorem C04_add_child_contains : forall chain c p,
+  add_child_parent chain c = Ok p -> can_contain p c = true /\ In p chain.
+Proof. exact add_child_contains. Qed.
+Print Assumptions C04_add_child_contains.
+
+Theorem C04_add_child_skips_only_refusing_ancestors : forall chain c p,
+  add_child_parent chain c = Ok p ->
+  exists skipped rest, chain = skipped ++ p :: rest /\ forall q, In q skipped -> can_contain q c = false.
+Proof. exact add_child_skips. Qed.
+Print Assumptions C04_add_child_skips_only_refusing_ancestors.
+
+Theorem C04_add_child_sites_audit : map snd add_child_sites = expected_add_child_kinds.
+Proof. exact add_child_sites_audit. Qed.
+Print Assumptions C04_add_child_sites_audit.
+
+(* at every audited call site the loop stops at or before the root, at a parent that may contain the
+   child: free kinds are accepted by the Document at the end of every ancestor chain, the six
+   direct kinds by the parent their call site passes *)
+Theorem C04_add_child_never_past_root : forall s chain,
+  In s add_child_sites ->
+  (match direct_parent (snd s) with
+   | Some p => exists up, chain = p :: up
+   | None => exists up, chain = up ++ [KDocument]
+   end) ->
+  exists p, add_child_parent chain (snd s) = Ok p /\ can_contain p (snd s) = true.
+Proof. exact add_child_never_past_root. Qed.
+Print Assumptions C04_add_child_never_past_root.
+
+Theorem C04_valid_append_leaf : forall v sp ch c csp,
+  valid (Node v sp ch) = true -> can_contain (kind_of v) (kind_of c) = true ->
+  valid (Node v sp (ch ++ [Node c csp []])) = true.
+Proof. exact valid_append_leaf. Qed.
+Print Assumptions C04_valid_append_leaf.
+
 (* ---- non-vacuity: the example tree of C10 (three-row table, lists, image, links, footnotes, raw
    HTML, headings) is structurally valid, and both renderer models return *)
 Example C04_example :
@@ -176,6 +212,8 @@ Example C04_example :
   try_opening_row_cells false 3 1 3 3 (Some 5) = Some (3, 6%N) /\
   try_opening_row_cells false 1000 501 0 1000 (Some 1) = None /\
   validate w_ragged = None /\
+  add_child_parent [KParagraph; KItem; KList; KBlockQuote; KDocument] KHeading = Ok KItem /\
+  add_child_parent [KParagraph; KItem; KList; KDocument] KItem = Ok KList /\
   validate (nd Document [nd Paragraph [nd Paragraph []]]) = Some (KParagraph, KParagraph).
 Proof.
   split; [vm_compute; reflexivity|]. split; [vm_compute; reflexivity|].
